@@ -36,7 +36,7 @@ TIME_CAP = {"quick": 900, "thorough": 5400}
 POOL = ["alpha", "b", "c3", "delta_x", "e", "zz"]
 
 BOUNDS = {
-    "quick": dict(seeds=[0, 1, 2, 3], k_names=3, chunk=400),
+    "quick": dict(seeds=[0, 1, 2, 3], k_names=3, chunk=500),
     "thorough": dict(seeds=[0, 1, 2, 3, 4, 5, 6, 12345], k_names=4, chunk=600),
 }
 
@@ -83,17 +83,52 @@ def _other_programs(names):
     yield f"(for [[{ns}] xs] (lfor i [1] (do (setv {asg}) i)))"
 
 
+def _more_programs(names):
+    """set/dict-order hazards beyond plain nonlocal: declarations inside comprehension forms compiled as functions,
+    and macro tables enumerated by a local (require M *)."""
+    ns = " ".join(names)
+    asg = " ".join(f"{n} i" for n in names)
+    init = " ".join(f"{n} 0" for n in names)
+    yield f"(defn f [] (setv {init}) (defn g [] (lfor i [1 2] (do (nonlocal {ns}) (setv {asg} extra i) i))) (g))"
+    yield f"(defn f [] (setv {init}) (defn g [] (lfor i [1 2] :do (nonlocal {ns}) :do (setv {asg} extra i) i)) (g))"
+    yield f"(setv {init}) (defn g [] (gfor i [1 2] :do (global {ns}) :do (setv {asg} extra i) i))"
+    yield f"(defn f [] (setv {init}) (defclass K [] (nonlocal {ns}) (setv {asg.replace(' i', ' 1')})))"
+    yield f"(defn f [] (let [{init}] (fn [] (nonlocal {ns}) (setv {asg.replace(' i', ' 1')}))))"
+
+
+HELPER_MODULE = "c13_macros"
+HELPER_SOURCE = "\n".join(f"(defmacro {m} [x] `(+ ~x {i}))" for i, m in enumerate(
+    ["add-one", "twice", "halve", "negate", "add-two", "alpha", "b", "c3", "delta-x", "e", "zz", "_private"]))
+REQUIRE_PROGRAMS = [
+    "(defn f [] (require c13_macros *) (add-one 1))",
+    "(defn f [] (require c13_macros) (c13_macros.add-one 1))",
+    "(defn f [] (require c13_macros :as m) (m.twice 1))",
+    "(defn f [] (require c13_macros [twice halve negate]) (twice 1))",
+    "(defn f [] (require c13_macros [twice :as t halve :as h]) (t 1))",
+    "(defclass K [] (require c13_macros *) (setv v (negate 1)))",
+    "(setv r (lfor i [1] (do (require c13_macros *) (halve i))))",
+    "(require c13_macros *) (defn f [] (add-two 1))",
+    "(require c13_macros :macros [alpha b c3])",
+    "(defn f [] (defmacro la [] 1) (defmacro lb [] 2) (defmacro lc [] 3) (local-macros))",
+    "(defn f [] (defmacro la [] 1) (defmacro lb [] 2) [(la) (lb)])",
+    "(export :objects [alpha b c3] :macros [ma mb mc])",
+]
+
 _CACHE = {}
 
 
 def programs(tier):
     if tier not in _CACHE:
+        from checks import c12
         b = BOUNDS[tier]
         out = []
         for k in range(2, b["k_names"] + 1):
             for names in itertools.permutations(POOL, k):
                 out.extend(_nonlocal_programs(names))
                 out.extend(_other_programs(names))
+                out.extend(_more_programs(names))
+        out.extend(REQUIRE_PROGRAMS)
+        out.extend(t for t, _o, _i in c12.pair_programs())      # every pair of name-introducing constructs
         _CACHE[tier] = out
     return _CACHE[tier]
 
@@ -139,12 +174,14 @@ def compile_under_seeds(progs, seeds, tag):
     os.makedirs(base, exist_ok=True)
     inp = os.path.join(base, "progs.json")
     json.dump(progs, open(inp, "w"))
+    open(os.path.join(base, HELPER_MODULE + ".hy"), "w").write(HELPER_SOURCE)
     child = os.path.join(base, "child.py")
     open(child, "w").write(CHILD)
     procs = []
     for s in seeds:
         env = dict(os.environ)
         env["PYTHONHASHSEED"] = str(s)
+        env["PYTHONPATH"] = env.get("PYTHONPATH", "") + os.pathsep + base      # the helper macro module
         outp = os.path.join(base, f"out-{s}.json")
         procs.append((s, outp, subprocess.Popen([sys.executable, child, inp, outp], env=env, stdout=subprocess.PIPE, stderr=subprocess.PIPE)))
     res = {}
@@ -186,7 +223,7 @@ def _judge(acc, text, per_seed, seeds):
 
 
 def _construct(text):
-    for k in ("nonlocal", "global", "lfor", "gfor", "dfor", "let", "defclass", "match", "import", "export", "with", "#{"):
+    for k in ("require", "local-macros", "defmacro", "nonlocal", "global", "lfor", "gfor", "dfor", "let", "defclass", "match", "import", "export", "with", "#{"):
         if k in text:
             return k
     return "other"
